@@ -36,8 +36,11 @@ def build_executor(case):
         return InteractiveExecutor(max_workers=case.get("workers", 1), executor_kwargs=ek, spawner=MpiExecSpawner)
     if mode == "step":
         ek.setdefault("cores", 1)
+        sp = MpiExecSpawner
+        if case.get("spawner") == "srun":
+            from executorlib.standalone.interactive.spawner import SrunSpawner as sp
         return InteractiveStepExecutor(max_cores=case.get("max_cores"), max_workers=case.get("max_workers"),
-                                       executor_kwargs=ek, spawner=MpiExecSpawner)
+                                       executor_kwargs=ek, spawner=sp)
     if mode in ("dep-block", "dep-step"):
         from executorlib import Executor
         return Executor(max_workers=case.get("max_workers"), max_cores=case.get("max_cores"), backend="local",
@@ -48,6 +51,21 @@ def build_executor(case):
 
 
 LEAK = []
+
+
+def submit_defaults():
+    """the shared default objects of the submit() signatures (must stay empty)"""
+    out = {}
+    try:
+        from executorlib.base.executor import ExecutorBase
+        from executorlib.interactive.shared import ExecutorBroker
+        from executorlib.interactive.executor import ExecutorWithDependencies
+        for cls in (ExecutorBase, ExecutorBroker, ExecutorWithDependencies):
+            kd = cls.submit.__kwdefaults__ or {}
+            out[cls.__name__] = repr(kd.get("resource_dict"))
+    except Exception as e:  # noqa
+        out["error"] = repr(e)
+    return out
 
 
 def snapshot(ctl, op_index, op):
@@ -78,6 +96,7 @@ def run_case(case):
     futs = {}
     outcomes = []
     snaps = []
+    passed = {}
 
     def program():
         ex = None
@@ -99,7 +118,8 @@ def run_case(case):
                         args = [args]
                     kw = {}
                     if c.get("res") is not None:
-                        kw["resource_dict"] = dict(c["res"])
+                        kw["resource_dict"] = json.loads(json.dumps(c["res"]))
+                        passed[i] = kw["resource_dict"]
                     futs[i] = ex.submit(fn, *args, **kw)
                     outcomes.append(["submit", i, "ok"])
                 elif kind in ("cancel", "result") and op[1] not in futs:
@@ -170,6 +190,8 @@ def run_case(case):
         "trace": [[en, pick, list(lab)] for en, pick, lab in ctl.log],
         "outcomes": outcomes,
         "snaps": snaps,
+        "passed_res": {str(i): d for i, d in passed.items()},
+        "submit_defaults": submit_defaults(),
         "futures": {str(f.fid): f.obs() for f in ctl.futures},
         "values": {str(f.fid): value_repr(f) for f in ctl.futures},
         "ents": {n: [e.state, e.exc] for n, e in ctl.ents.items()},
